@@ -12,42 +12,28 @@ import (
 	. "verif/harness/lib"
 )
 
-// Findings replays, against the real modules, the witnesses of the `_full_false` theorems
-// (DESIGN §6 F3 / F5 and the two-segment variant).  Every confirmed witness is reported with its
-// stable key (matched against known_findings.json by bin/check); the histories are also emitted as
-// correspondence cases, so the model is compared with the code on exactly these paths.
+// Findings replays, against the real modules, the witnesses that refuted C30 / C32 / C33 / C42 before
+// the fixes 4b2f809 (Transfer rejects base denominations that would be re-parsed as a trace) and 143f4d3
+// (ParseDenomFromRecvPacket takes ICS-20's decision).  They are regression cases now: each formerly
+// failing input must be rejected or handled consistently; a reproduction is reported as a fresh
+// violation.  The histories are also emitted as correspondence cases.
 func Findings(put func(M, any), report func(Viol)) {
-	// ---- F5 (C42): counterparty channel id not in ibc-go's format -----------------------------
-	{
-		sp, sc, dp, dc, denom := "transfer", "mychannel00", "transfer", "channel-0", "transfer/mychannel00/uatom"
-		in1 := M{"f": "rl.recv", "sp": sp, "sc": sc, "dp": dp, "dc": dc, "denom": denom}
-		in2 := M{"f": "ics20.recv", "sp": sp, "sc": sc, "dp": dp, "dc": dc, "denom": denom}
+	// ---- F5 (C42): counterparty channel id not in ibc-go's format; two-segment base ------------
+	for _, x := range [][5]string{{"transfer", "mychannel00", "transfer", "channel-0", "transfer/mychannel00/uatom"},
+		{"transfer", "channel-0", "transfer", "channel-5", "ab/channel-1"},
+		{"transfer", "channel-3", "transfer", "channel-5", "transfer/channel-3/ab/channel-1"}} {
+		in1 := M{"f": "rl.recv", "sp": x[0], "sc": x[1], "dp": x[2], "dc": x[3], "denom": x[4]}
+		in2 := M{"f": "ics20.recv", "sp": x[0], "sc": x[1], "dp": x[2], "dc": x[3], "denom": x[4]}
 		o1, o2 := EvalPure(in1), EvalPure(in2)
 		put(in1, o1)
 		put(in2, o2)
 		charged := o1.(M)["ok"]
 		if m, ok := o2.(M); ok && m["coin"] != nil && m["coin"] != charged {
-			report(Viol{Property: "C42", Key: "C42:foreign-channel-id-format",
-				What:  "receive from a counterparty channel id that is not channel-N/<type>-N: rate limiter strips the prefix by string match, ICS-20 mints a voucher",
+			report(Viol{Property: "C42", What: "receive: rate limiter and ICS-20 disagree on the denomination (regression of 143f4d3)",
 				Input: in2, Observed: M{"charged": charged, "moved": m["coin"], "mode": m["mode"]}, Requests: []M{in1, in2}})
 		}
 	}
-	// ---- two-segment base (C42 receive) ----------------------------------------------------------
-	{
-		in1 := M{"f": "rl.recv", "sp": "transfer", "sc": "channel-0", "dp": "transfer", "dc": "channel-5", "denom": "ab/channel-1"}
-		in2 := M{"f": "ics20.recv", "sp": "transfer", "sc": "channel-0", "dp": "transfer", "dc": "channel-5", "denom": "ab/channel-1"}
-		o1, o2 := EvalPure(in1), EvalPure(in2)
-		put(in1, o1)
-		put(in2, o2)
-		charged := o1.(M)["ok"]
-		if m, ok := o2.(M); ok && m["coin"] != nil && m["coin"] != charged {
-			report(Viol{Property: "C42", Key: "C42:hoplike-native-base",
-				What:  "receive of the two-segment base ab/channel-1: rate limiter hashes the path with a trailing slash, ICS-20 mints the voucher of the path without it",
-				Input: in2, Observed: M{"charged": charged, "moved": m["coin"]}, Requests: []M{in1, in2}})
-		}
-	}
 	// ---- F3 on real chains -----------------------------------------------------------------------
-	// the world is built first so that the channel ids are known; the hop-like natives are named after them
 	cA, cB := "channel-1", "channel-2" // the v1 channel A(0) <-> B(1) of every world (world.go)
 	fake := "transfer/" + cA + "/ufoo" // on A: native coin named like "ufoo received over cA"
 	two := "ab/" + cB
@@ -62,9 +48,9 @@ func Findings(put func(M, any), report func(Viol)) {
 		return m
 	}
 	do(w.ResetRequest())
-	tr := func(c int, ch, denom, amt, from, to string) M {
+	tr := func(c int, ch, denom, amt, from, to string, alias bool) M {
 		return do(M{"f": "transfer", "chain": c, "port": "transfer", "chan": ch, "denom": denom, "amount": amt, "sender": from, "signer": from,
-			"tx": true, "receiver": to, "memo": "", "alias": false, "encoding": "", "timeout": "near", "coreErr": ""})
+			"tx": true, "receiver": to, "memo": "", "alias": alias, "encoding": "", "timeout": "near", "coreErr": ""})
 	}
 	relay := func(c int, ch string, seq any) (M, M) {
 		r := do(M{"f": "recv", "chain": c, "chan": ch, "seq": seq, "elapsed": false, "coreErr": ""})
@@ -72,79 +58,57 @@ func Findings(put func(M, any), report func(Viol)) {
 		return r, a
 	}
 	bal := func(c int, name, denom string) sdkmath.Int { return get(w.Snapshot(c).Bal, name+"|"+denom) }
-
-	// (1) C42 send: the native coin transfer/channel-7/x
-	{
-		before := bal(0, "A1", "transfer/channel-7/x")
-		r := tr(0, cA, "transfer/channel-7/x", "5", "A1", "B1")
-		if r["r"] == "ok" {
-			moved := before.Sub(bal(0, "A1", "transfer/channel-7/x"))
-			charged := ratelimitkeeper.ParseDenomFromSendPacket(transfertypes.FungibleTokenPacketData{Denom: "transfer/channel-7/x"})
-			if moved.Equal(sdkmath.NewInt(5)) && charged != "transfer/channel-7/x" {
-				report(Viol{Property: "C42", Key: "C42:hoplike-native-base",
-					What:     "send of the native coin transfer/channel-7/x: ICS-20 escrows that coin, the rate limiter charges ibc/HASH(transfer/channel-7/x)",
-					Input:    hist[len(hist)-1], Observed: M{"charged": charged, "moved": "transfer/channel-7/x"}, Requests: append([]M{}, hist...)})
-			}
+	// a hop-like native coin must not leave the chain any more
+	rejected := func(prop string, r M, what string) bool {
+		if r["r"] == "err" && r["cls"] == "transfer/3" {
+			return true
+		}
+		if r["r"] != "ok" {
+			return true // failed for another reason: nothing moved
+		}
+		report(Viol{Property: prop, What: what + " (regression of 4b2f809: the transfer was accepted)", Input: hist[len(hist)-1], Observed: r, Requests: append([]M{}, hist...)})
+		return false
+	}
+	// honest traffic first: B escrows 1000 ufoo for A
+	r0 := tr(1, cB, "ufoo", "1000", "B1", "A2", false)
+	relay(1, cB, r0["seq"])
+	escBefore := bal(1, escName("transfer", cB), "ufoo")
+	for _, alias := range []bool{false, true} {
+		// (1) C42 send / (2) C30 / (3) C33 / (4) C32: every attack starts with sending the look-alike coin
+		if r := tr(0, cA, "transfer/channel-7/x", "5", "A1", "B1", alias); !rejected("C42", r, "send of the native coin transfer/channel-7/x") {
+			relay(0, cA, r["seq"])
+		}
+		if r := tr(0, cA, fake, "400", "A1", "B3", alias); !rejected("C30", r, "A's native coin "+fake+" sent over "+cA) {
+			relay(0, cA, r["seq"])
+		}
+		if r := tr(0, cA, two, "30", "A1", "B1", alias); !rejected("C33", r, "native coin "+two+" whose voucher could never be sent again") {
+			relay(0, cA, r["seq"])
 		}
 	}
-	// (2) C30: B's real ufoo, escrowed for A, is released against A's look-alike native coin
-	{
-		r := tr(1, cB, "ufoo", "1000", "B1", "A2") // honest: B escrows 1000 ufoo, A2 gets a voucher
-		relay(1, cB, r["seq"])
-		escBefore := bal(1, escName("transfer", cB), "ufoo")
-		b3 := bal(1, "B3", "ufoo")
-		r2 := tr(0, cA, fake, "400", "A1", "B3") // A1 sends 400 of the look-alike native coin
-		rr, _ := relay(0, cA, r2["seq"])
-		escAfter := bal(1, escName("transfer", cB), "ufoo")
-		if rr["ack"] == "success" && escBefore.Sub(escAfter).Equal(sdkmath.NewInt(400)) && bal(1, "B3", "ufoo").Sub(b3).Equal(sdkmath.NewInt(400)) {
-			voucher := voucherOf(cA, "ufoo")
-			report(Viol{Property: "C30", Key: "C30:hoplike-native-base",
-				What: fmt.Sprintf("A sends its native coin %q over %s; B parses it as ufoo returning home and releases 400 real ufoo from escrow: escrow on B (%s) no longer covers the %s vouchers on A (%s)",
-					fake, cA, escAfter, voucher, get(w.Snapshot(0).Sup, voucher)),
-				Input: hist[len(hist)-2], Observed: M{"escrowB": escAfter.String(), "voucherSupplyA": get(w.Snapshot(0).Sup, voucher).String()}, Requests: append([]M{}, hist...)})
-		}
-		// (3) C33: … and the round trip A -> B -> A of that native coin does not return it
-		native := bal(0, "A1", fake)
-		r3 := tr(1, cB, "ufoo", "400", "B3", "A1") // B3 sends "back" what it received
-		rr3, _ := relay(1, cB, r3["seq"])
-		if rr3["ack"] == "success" && bal(0, "A1", fake).Equal(native) {
-			report(Viol{Property: "C33", Key: "C33:hoplike-native-base",
-				What:     fmt.Sprintf("round trip of A's native coin %q over %s/%s: the return leg credits a voucher of ufoo, the native coin stays locked in escrow", fake, cA, cB),
-				Input:    hist[len(hist)-2], Observed: M{"nativeBalanceA1": bal(0, "A1", fake).String(), "before": native.String()}, Requests: append([]M{}, hist...)})
-		}
+	// direct IBC v2 client path
+	if r := tr(0, "07-tendermint-0", fake, "7", "A1", "B3", false); !rejected("C30", r, "A's native coin "+fake+" sent over the v2 client") {
+		relay(0, "07-tendermint-0", r["seq"])
 	}
-	// (4) C32: timeout refund of a hop-like native coin mints a voucher instead of releasing the escrow
-	{
-		native := bal(0, "A2", fake)
-		r := tr(0, cA, fake, "50", "A2", "B2")
-		do(M{"f": "advance", "minutes": 120, "blocks": 2})
-		t := do(M{"f": "timeout", "chain": 0, "chan": cA, "seq": r["seq"], "elapsed": true, "coreErr": ""})
-		if t["r"] == "ok" && !bal(0, "A2", fake).Equal(native) {
-			report(Viol{Property: "C32", Key: "C32:hoplike-native-base",
-				What:     fmt.Sprintf("timeout of a transfer of the native coin %q over %s: the refund mints ibc/HASH to the sender; the native coin is not returned", fake, cA),
-				Input:    hist[len(hist)-1], Observed: M{"nativeBalance": bal(0, "A2", fake).String(), "beforeSend": native.String(), "delta": t["delta"]}, Requests: append([]M{}, hist...)})
-		}
+	if escAfter := bal(1, escName("transfer", cB), "ufoo"); !escAfter.Equal(escBefore) {
+		report(Viol{Property: "C30", What: fmt.Sprintf("escrow of real ufoo on B changed from %s to %s although only look-alike coins were offered", escBefore, escAfter),
+			Input: hist[len(hist)-1], Observed: nil, Requests: append([]M{}, hist...)})
 	}
-	// (5) C33: the voucher of a two-segment base x/channel-N can never be sent anywhere again
-	{
-		r := tr(0, cA, two, "30", "A1", "B1")
-		rr, _ := relay(0, cA, r["seq"])
-		voucher := voucherOf(cB, two)
-		if rr["ack"] == "success" && bal(1, "B1", voucher).IsPositive() {
-			back := tr(1, cB, voucher, "10", "B1", "A1")
-			if back["r"] == "err" {
-				report(Viol{Property: "C33", Key: "C33:hoplike-native-base",
-					What:     fmt.Sprintf("voucher of the native coin %q received on B cannot be sent back (or anywhere): MsgTransfer fails with %v", two, back["cls"]),
-					Input:    hist[len(hist)-1], Observed: back, Requests: append([]M{}, hist...)})
-			}
-			pk := channeltypes.Packet{SourcePort: "transfer", SourceChannel: cA, DestinationPort: "transfer", DestinationChannel: cB}
-			if charged := ratelimitkeeper.ParseDenomFromRecvPacket(pk, transfertypes.FungibleTokenPacketData{Denom: two}); charged != voucher {
-				report(Viol{Property: "C42", Key: "C42:hoplike-native-base",
-					What:  fmt.Sprintf("receive of the two-segment base %q on real chains: minted %s, rate limiter charges %s", two, voucher, charged),
-					Input: hist[len(hist)-3], Observed: M{"charged": charged, "moved": voucher}, Requests: append([]M{}, hist...)})
-			}
+	// the honest voucher still returns home
+	v := voucherOf(cA, "ufoo")
+	a2 := bal(0, "A2", v)
+	rb := tr(0, cA, v, "250", "A2", "B4", false)
+	b4 := bal(1, "B4", "ufoo")
+	if rb["r"] == "ok" {
+		rr, _ := relay(0, cA, rb["seq"])
+		if rr["ack"] != "success" || !bal(1, "B4", "ufoo").Sub(b4).Equal(sdkmath.NewInt(250)) || !a2.Sub(bal(0, "A2", v)).Equal(sdkmath.NewInt(250)) {
+			report(Viol{Property: "C33", What: "an honest voucher of ufoo did not return as ufoo", Input: hist[len(hist)-2], Observed: rr, Requests: append([]M{}, hist...)})
 		}
+	} else {
+		report(Viol{Property: "C33", What: "an honest voucher of ufoo could not be sent back", Input: hist[len(hist)-1], Observed: rb, Requests: append([]M{}, hist...)})
 	}
+	_ = ratelimitkeeper.ParseDenomFromSendPacket
+	_ = transfertypes.ModuleName
+	_ = channeltypes.ORDERED
 	for c := 0; c < 3; c++ {
 		do(M{"f": "view", "chain": c})
 	}
